@@ -268,7 +268,10 @@ Definition inplace_ok (s : string * string * string * string * list string) : bo
   let '(m, f, kind, target, origins) := s in
   out_of_scope m || (String.eqb m "display.py" && negb (prefix "method " kind || prefix "function " kind))
   || target_is_bookkeeping target
-  || existsb (fun t => let '(m', f', t') := t in String.eqb m m' && String.eqb f f' && String.eqb target t') reviewed_inplace
+  (* the review below was of stores / augmented assignments / copy=False: a mutating method or function call on the
+     same name is a different operation and is not covered by it *)
+  || (negb (prefix "method " kind || prefix "function " kind)
+      && existsb (fun t => let '(m', f', t') := t in String.eqb m m' && String.eqb f f' && String.eqb target t') reviewed_inplace)
   || (negb (match origins with [] => true | _ => false end) && forallb origin_fresh origins).
 
 (* ------------------------------------------------------------------ soundness arguments *)
